@@ -84,6 +84,7 @@ class Effects:
         self._sum = {}
         self._inprog = set()
         self.unmodelled = []   # (fn, loc, callee) with tracked &mut location
+        self.prefix_kills = []  # (fn path, collection AP, bound text): clears accepted via take(E)
 
     def fa(self, path):
         if path not in self._fa:
@@ -663,7 +664,12 @@ class Effects:
                     if st[0] == "call" and st[1].endswith("len") and st[2] and st[2][0][0] == "ap" \
                             and st[2][0][1] == coll:
                         targets.add(show(S.operand(s["rv"]["ops"][1])))
-        return want in targets
+        if want in targets:
+            rec = (fa.fn.path, coll, want)
+            if rec not in self.prefix_kills:
+                self.prefix_kills.append(rec)
+            return True
+        return False
 
     def foreach_kills(self, fa):
         """`X.iter_mut().for_each(Vec::clear)` / `.for_each(|v| v.clear())`: every element killed."""
